@@ -5,6 +5,7 @@ import SieveModel.Model.Machine
 import SieveModel.Model.Show
 import SieveModel.Generated.Tables
 import SieveModel.Generated.LexRules
+import SieveModel.Lemmas.Layout
 import SieveModel.Lemmas.Brackets
 import SieveModel.Lemmas.Roles
 import SieveModel.Lemmas.Typed
@@ -325,5 +326,23 @@ theorem live_table_is_the_supported_table : Generated.builtinTable = Spec.frozen
 theorem lexer_is_the_modelled_one :
     Generated.lexRuleNames = TokKind.all.map TokKind.name ∧ Generated.lexRulePatterns = TokKind.patterns ∧
       Generated.parserPatterns = TokKind.auxPatterns := by decide
+
+/-- **acceptance and the tree are functions of the token sequence**: two texts that lex to the same kinds and texts of tokens
+    (white space, line breaks, positions differ) are accepted together, with the same tree — for every table -/
+theorem same_tokens_same_verdict (T : Table) (t1 t2 : Bytes) (l1 l2 : Lex.Result) (h1 : Lex.lex t1 = some l1)
+    (h2 : Lex.lex t2 = some l2) (he2 : l2.err = none) (hk : l1.toks.map Lex.kt = l2.toks.map Lex.kt) (prev1 prev2 : PState)
+    (r : List Node) (h : Machine.parse T t1 prev1 = .accept r) : Machine.parse T t2 prev2 = .accept r :=
+  Layout.same_tokens_same_tree T t1 t2 l1 l2 h1 h2 he2 hk prev1 prev2 r h
+
+/-- **layout does not matter**: the tokens of an accepted script written with any other white space between them — every token
+    still followed by a byte that cannot continue it (`Lex.SWeave`) — are accepted with the same tree -/
+theorem accepted_whatever_the_layout (T : Table) (t1 t2 : Bytes) (l1 : Lex.Result) (h1 : Lex.lex t1 = some l1)
+    (hw : Lex.SWeave (l1.toks.map Lex.kt) t2) (prev1 prev2 : PState) (r : List Node) (h : Machine.parse T t1 prev1 = .accept r) :
+    Machine.parse T t2 prev2 = .accept r :=
+  Layout.accepted_whatever_the_layout T t1 t2 l1 h1 hw prev1 prev2 r h
+
+/-- non-vacuity: the same five tokens in two layouts -/
+example : (Lex.lex (sb "if true{keep;}")).map (fun (l : Lex.Result) => l.toks.map Lex.kt) =
+    (Lex.lex (sb "  if\ttrue\r\n{\n  keep ;\n}\n")).map (fun (l : Lex.Result) => l.toks.map Lex.kt) := by decide +kernel
 
 end C01
